@@ -423,7 +423,6 @@ class Grammar:
         self._rule_fns = {}
         for name in self._order:
             self._rule_fns[name] = self._make_rule_fn(name)
-        # patch ref nodes (they were compiled with a late-binding lookup)
 
     def _refs(self, node) -> Iterator[str]:
         k = node[0]
@@ -667,8 +666,7 @@ class Grammar:
             n.fn = f_str
         elif k == "ref":
             name = n.name
-            rule_fns = None
-            gram = self
+            gram = self  # late binding: rule functions are created after all bodies are compiled
 
             def f_ref(cs, pos, memo, name=name, gram=gram):
                 return gram._rule_fns[name](cs, pos, memo)
@@ -850,9 +848,8 @@ class Grammar:
             self.memo: dict = {}
 
         def span_matches(self, rule: str, i: int, j: int) -> bool:
-            """text[i:j] derives from rule (prefix-closedness is not assumed: uses a sub-session
-            when j is not the end of the text, because rules may look at what follows only through
-            their own end sets, which is exactly what `ends` gives)."""
+            """text[i:j] derives from rule (ABNF is context-free: the end positions of a rule at i do
+            not depend on what follows, so the shared memo can be used for any span)."""
             name = self.g._rule(rule)
             with _deep_recursion():
                 return j in self.g._rule_fns[name](self.cs, i, self.memo)
